@@ -239,7 +239,8 @@ Definition script_atE (k : nat) : Prop :=
 Lemma sym_loop_simE : forall k, (k <= length Y)%nat -> (forall j, (j < k)%nat -> script_atE j) ->
   exists d, D.sym_loop NC maxv rm (Z.of_nat (length Y)) (firstn k Y) 0 (D.init_st (rev (REM 0))) = D.Ok d /\
     SIM k d /\ DP.W NC maxv (Z.of_nat k) d /\ DF.FI (Z.of_nat k) d /\ D.nv d = cntv (firstn k Y) /\ D.events d = REM k /\
-    D.splits d = SPL k /\ D.stack d = map (fun j => dco j 0) (topsE k).
+    D.splits d = SPL k /\ D.stack d = map (fun j => dco j 0) (topsE k) /\
+    (length (D.invalid d) <= count_occ Z.eq_dec (firstn k Y) 1%Z)%nat.
 Proof.
   pose proof (cntv_nonneg Y) as Hc0.
   induction k as [|k IH]; intros Hk Sc.
@@ -247,7 +248,7 @@ Proof.
     { constructor; cbn; intros; lia. }
     split; [apply DP.W_init; lia|]. split; [apply DF.FI_init|]. cbn [D.nv D.init_st cntv firstn D.events D.splits D.stack SPL topsE map].
     split; auto. split; [apply rev_involutive|]. split; auto.
-  - destruct (IH ltac:(lia) ltac:(intros; apply Sc; lia)) as (d & E & HS & HW & HF & Hnv & Hev & Hsp & Hst0).
+  - destruct (IH ltac:(lia) ltac:(intros; apply Sc; lia)) as (d & E & HS & HW & HF & Hnv & Hev & Hsp & Hst0 & Hiv).
     assert (Hkn : (k < ns)%nat) by (unfold ns; lia).
     assert (Hst : forall k', k = S k' -> exists rest, D.stack d = dco k' 0 :: rest /\ rest = map (fun j => dco j 0) (tl (topsE k))).
     { intros k' Ek. destruct (topsE_head k ltac:(lia)) as (T & ET). rewrite Hst0, ET. cbn [map tl]. replace (k - 1)%nat with k' by lia. eauto. }
@@ -261,21 +262,26 @@ Proof.
     pose proof (cntv_firstn Y (S k)) as Hc1. rewrite (firstn_S_nth _ _ _ Ey), cntv_app in Hc1. cbn [cntv] in Hc1.
     assert (Fin : forall d', D.step NC maxv rm (Z.of_nat (length Y)) d (0 + Z.of_nat k) y = D.Ok d' ->
               SIM (S k) d' -> D.nv d' = D.nv d + cntv1 y -> D.events d' = REM (S k) -> D.splits d' = SPL (S k) ->
+              (length (D.invalid d') <= length (D.invalid d) + (if (y =? 1)%Z then 1 else 0))%nat ->
               D.stack d' = map (fun j => dco j 0) (topsE (S k)) ->
               exists d0, D.bind (D.step NC maxv rm (Z.of_nat (length Y)) d (0 + Z.of_nat k) y) (fun s => D.Ok s) = D.Ok d0 /\
                 SIM (S k) d0 /\ DP.W NC maxv (Z.of_nat (S k)) d0 /\ DF.FI (Z.of_nat (S k)) d0 /\
                 D.nv d0 = cntv (firstn k Y ++ [y]) /\ D.events d0 = REM (S k) /\ D.splits d0 = SPL (S k) /\
-                D.stack d0 = map (fun j => dco j 0) (topsE (S k))).
-    { intros d' Es S' Nv' Ev' Sp' St'. exists d'. rewrite Es. cbn [D.bind]. split; [reflexivity|]. split; [auto|].
+                D.stack d0 = map (fun j => dco j 0) (topsE (S k)) /\
+                (length (D.invalid d0) <= count_occ Z.eq_dec (firstn k Y ++ [y]) 1%Z)%nat).
+    { intros d' Es S' Nv' Ev' Sp' Iv' St'. exists d'. rewrite Es. cbn [D.bind]. split; [reflexivity|]. split; [auto|].
       destruct (DP.step_W _ _ _ _ _ _ _ _ HW' HN Es) as (W' & Nf' & _).
       pose proof (DF.step_FI _ _ _ _ _ _ _ _ HW' HF' HN Es) as F'.
       assert (Enf : D.nfaces d' = Z.of_nat (S k)) by lia. rewrite Enf in W', F'.
-      split; [auto|]. split; [auto|]. split; [rewrite cntv_app; cbn [cntv]; lia|]. auto. }
+      split; [auto|]. split; [auto|]. split; [rewrite cntv_app; cbn [cntv]; lia|]. split; [auto|]. split; [auto|]. split; [auto|].
+      rewrite count_occ_app. cbn [count_occ]. destruct (Z.eq_dec y 1) as [->|Ny]; [cbn in Iv'; lia|].
+      replace (y =? 1)%Z with false in Iv' by (symmetry; apply Z.eqb_neq; exact Ny). lia. }
     (* the events read after an E / L / R *)
     assert (Split : forall s1 stk, D.stack s1 = 3 * Z.of_nat k :: stk -> D.events s1 = REM k ->
               exists d', D.split_loop (D.events s1) s1 (Z.of_nat (length Y)) (Z.of_nat (length Y) - (0 + Z.of_nat k) - 1) = D.Ok d' /\
                 D.events d' = REM (S k) /\ D.splits d' = rev (map (reg_of k) (EVseg k)) ++ D.splits s1 /\
-                D.copp d' = D.copp s1 /\ D.c2v d' = D.c2v s1 /\ D.nv d' = D.nv s1 /\ D.stack d' = D.stack s1 /\ D.nfaces d' = D.nfaces s1).
+                D.copp d' = D.copp s1 /\ D.c2v d' = D.c2v s1 /\ D.nv d' = D.nv s1 /\ D.stack d' = D.stack s1 /\ D.nfaces d' = D.nfaces s1 /\
+                D.invalid d' = D.invalid s1).
     { intros s1 stk Est1 Eev1. rewrite Eev1, (REM_S k Hkn). unfold rawseg.
       replace (Z.of_nat (length Y) - (0 + Z.of_nat k) - 1) with (Z.of_nat ns - Z.of_nat k - 1) by (unfold ns; lia).
       destruct (split_loop_run ns k Hkn Hns (EVseg k) (REM (S k)) s1 stk Hseg) as (d' & E2 & B1 & B2 & B3 & B4 & B5 & B6 & B7 & B8 & B9); auto.
@@ -286,7 +292,7 @@ Proof.
     + (* E *)
       destruct (dec_step_E NC maxv (D.with_nfaces d (D.nfaces d + 1)) (D.nfaces d)) as (s1 & E1 & X1 & X2 & X3 & X4 & X5 & X6 & X7 & X8 & _); dproj; auto.
       { apply DP.W_with_nfaces. auto. } { unfold cntv1 in Hc1; cbn in Hc1; lia. }
-      destruct (Split s1 (D.stack d)) as (d' & E2 & B1 & B2 & B3 & B4 & B5 & B6 & B7).
+      destruct (Split s1 (D.stack d)) as (d' & E2 & B1 & B2 & B3 & B4 & B5 & B6 & B7 & B8).
       { rewrite X4, Hnf. reflexivity. } { rewrite X5. exact Hev. }
       assert (Es : D.step NC maxv rm (Z.of_nat (length Y)) d (0 + Z.of_nat k) 7 = D.Ok d').
       { rewrite step_E_unfold, E1. cbn [D.bind]. exact E2. }
@@ -294,7 +300,7 @@ Proof.
       assert (A2 : D.c2v d' = D.upd (D.upd (D.upd (D.c2v d) (3 * D.nfaces d) (D.nv d)) (3 * D.nfaces d + 1) (D.nv d + 1)) (3 * D.nfaces d + 2) (D.nv d + 2)) by congruence.
       assert (A3 : D.nv d' = D.nv d + 3) by congruence.
       assert (A4 : D.stack d' = 3 * D.nfaces d :: D.stack d) by congruence.
-      apply (Fin d' Es); [ | rewrite A3; reflexivity | exact B1 | rewrite B2, X6, Hsp; reflexivity | ].
+      apply (Fin d' Es); [ | rewrite A3; reflexivity | exact B1 | rewrite B2, X6, Hsp; reflexivity | rewrite B8, X7; cbn; lia | ].
       * apply (SIM_E k d d'); auto; try (rewrite ?A2, ?Hnf; auto; lia).
         intros r Hr. destruct r as [|[|[|r]]]; auto; lia.
       * rewrite A4, Hst0. cbn [topsE]. rewrite Ey. cbn [Z.eqb Pos.eqb map]. f_equal. unfold dco. rewrite Hnf. lia.
@@ -306,12 +312,12 @@ Proof.
         intros j' Hj' F. rewrite eco_face in F. apply Q_face_inj in F; lia. }
       destruct (dec_step_RL NC maxv true (D.with_nfaces d (D.nfaces d + 1)) (D.nfaces d) (dco (k - 1) 0) rest) as (s1 & E1 & X1 & X2 & X3 & X4 & X5 & X6 & X7 & X8 & _); dproj; auto.
       { apply DP.W_with_nfaces. auto. } { unfold cntv1 in Hc1; cbn in Hc1; lia. }
-      destruct (Split s1 rest) as (d' & E2 & B1 & B2 & B3 & B4 & B5 & B6 & B7).
+      destruct (Split s1 rest) as (d' & E2 & B1 & B2 & B3 & B4 & B5 & B6 & B7 & B8).
       { rewrite X4, Hnf. reflexivity. } { rewrite X5. exact Hev. }
       assert (Es : D.step NC maxv rm (Z.of_nat (length Y)) d (0 + Z.of_nat k) 5 = D.Ok d').
       { rewrite (step_RL_unfold NC maxv rm true), E1. cbn [D.bind]. exact E2. }
       rewrite <- B3 in X1. rewrite <- B4 in X2. rewrite <- B5 in X3. rewrite <- B6 in X4.
-      apply (Fin d' Es); [ | rewrite X3; reflexivity | exact B1 | rewrite B2, X6, Hsp; reflexivity | ].
+      apply (Fin d' Es); [ | rewrite X3; reflexivity | exact B1 | rewrite B2, X6, Hsp; reflexivity | rewrite B8, X7; cbn; lia | ].
       * apply (SIM_RL k d d' 2%nat); auto; try lia.
         -- rewrite X1, Hnf. replace (dco k 2) with (3 * Z.of_nat k + 2) by (unfold dco; lia). reflexivity.
         -- rewrite X2, Hnf. cbn [Nat.modulo Nat.divmod Nat.add fst snd Nat.sub].
@@ -327,12 +333,12 @@ Proof.
         intros j' Hj' F. rewrite eco_face in F. apply Q_face_inj in F; lia. }
       destruct (dec_step_RL NC maxv false (D.with_nfaces d (D.nfaces d + 1)) (D.nfaces d) (dco (k - 1) 0) rest) as (s1 & E1 & X1 & X2 & X3 & X4 & X5 & X6 & X7 & X8 & _); dproj; auto.
       { apply DP.W_with_nfaces. auto. } { unfold cntv1 in Hc1; cbn in Hc1; lia. }
-      destruct (Split s1 rest) as (d' & E2 & B1 & B2 & B3 & B4 & B5 & B6 & B7).
+      destruct (Split s1 rest) as (d' & E2 & B1 & B2 & B3 & B4 & B5 & B6 & B7 & B8).
       { rewrite X4, Hnf. reflexivity. } { rewrite X5. exact Hev. }
       assert (Es : D.step NC maxv rm (Z.of_nat (length Y)) d (0 + Z.of_nat k) 3 = D.Ok d').
       { rewrite (step_RL_unfold NC maxv rm false), E1. cbn [D.bind]. exact E2. }
       rewrite <- B3 in X1. rewrite <- B4 in X2. rewrite <- B5 in X3. rewrite <- B6 in X4.
-      apply (Fin d' Es); [ | rewrite X3; reflexivity | exact B1 | rewrite B2, X6, Hsp; reflexivity | ].
+      apply (Fin d' Es); [ | rewrite X3; reflexivity | exact B1 | rewrite B2, X6, Hsp; reflexivity | rewrite B8, X7; cbn; lia | ].
       * apply (SIM_RL k d d' 1%nat); auto; try lia.
         -- rewrite X1, Hnf. replace (dco k 1) with (3 * Z.of_nat k + 1) by (unfold dco; lia). reflexivity.
         -- rewrite X2, Hnf. cbn [Nat.modulo Nat.divmod Nat.add fst snd Nat.sub].
@@ -378,7 +384,7 @@ Proof.
         rewrite eco_next in X by auto. change (eco (k - 1) 1) with (next_c (eco (k - 1) 0)) in X.
         apply Nk1. change (nth k Q 0%nat) with (eco k 0). congruence.
       * rewrite Ena, Evc, Eb in A1, A2.
-        apply (Fin d' Es); [ | rewrite A3; unfold cntv1; cbn; lia | rewrite ERem; congruence | rewrite ESpl; congruence | ].
+        apply (Fin d' Es); [ | rewrite A3; unfold cntv1; cbn; lia | rewrite ERem; congruence | rewrite ESpl; congruence | rewrite A7; destruct rm; cbn; lia | ].
         -- apply (SIM_C k d d' jb rb); auto; try lia.
            ++ rewrite A1, Hnf. fold rl.
               replace (dco k 1) with (3 * Z.of_nat k + 1) by (unfold dco; lia).
@@ -434,7 +440,7 @@ Proof.
       * rewrite Epa, Enb. apply (S_sep_g c2v opp nf Hlen OK Q Qrng Qnd k d ja ra); auto.
       * rewrite Epb, Enb. intro X. apply (s_vtx _ _ HS) in X; try lia. apply Nr3. symmetry. exact X.
       * rewrite Hnf in A1, A2.
-        apply (Fin d' Es); [ | rewrite A3; unfold cntv1; cbn; lia | rewrite ERem; congruence | rewrite ESpl; congruence | ].
+        apply (Fin d' Es); [ | rewrite A3; unfold cntv1; cbn; lia | rewrite ERem; congruence | rewrite ESpl; congruence | rewrite A7; destruct rm; cbn; lia | ].
         -- apply (SIM_S_g c2v opp nf Hlen OK Q Qrng Qnd NC maxv k d d' ja ra); auto. rewrite A8, Hnf. lia.
         -- rewrite A4, Etop. reflexivity.
 Qed.
@@ -448,7 +454,7 @@ Theorem dec_roundtrip_events B :
   exists n s, D.eb_core NC maxv (Z.of_nat (length Q)) rm Y (rev (REM 0)) (D.bits_of_list B) = D.Ok (n, s) /\
               eb_iso c2v opp Q (D.c2v s) (D.copp s).
 Proof.
-  intros Complete Sc SO. destruct (sym_loop_simE (length Y) (le_n _) Sc) as (d & E & HS & HW & HF & Hnv & Hev & Hsp & Hst).
+  intros Complete Sc SO. destruct (sym_loop_simE (length Y) (le_n _) Sc) as (d & E & HS & HW & HF & Hnv & Hev & Hsp & Hst & _).
   rewrite firstn_all in E. unfold D.eb_core. rewrite E. cbn [D.bind].
   pose proof (DP.w_nv _ _ _ _ HW) as Hn. replace (D.nv d >? maxv) with false by lia.
   destruct (start_loop_sim_g c2v opp nf Hlen OK Q Qrng Qnd NC maxv Y HYQ FAN (topsE (length Y)) B (topsE_lt (length Y)) SO HNC (topsE (length Y)) 0%nat d eq_refl)
@@ -493,5 +499,39 @@ Proof.
     + intros j r Hj Hr N. rewrite Esl in *.
       destruct (DF.slf_created NC maxv s' _ _ HW2 (Rd j r Hj Hr)) as [Z0|Z0]; [congruence|].
       apply EQ; auto.
+Qed.
+
+(** the state BEFORE the vertex compaction, with events (for counting the decoder's vertices; as [EbSimLoop_proofs.dec_precompact]) *)
+Theorem dec_precompact_events B :
+  (forall f, (f < nf)%nat -> is_degenerated c2v f = false -> In f (map (fun c => (c / 3)%nat) Q)) ->
+  (forall j, (j < length Y)%nat -> script_atE j) -> start_ok_g c2v opp nf Q Y (topsE (length Y)) B ->
+  exists d s', D.sym_loop NC maxv rm (Z.of_nat (length Y)) Y 0 (D.init_st (rev (REM 0))) = D.Ok d /\
+    D.start_loop NC maxv (Z.of_nat (length Q)) (D.bits_of_list B) 0 (D.stack d) d = D.Ok s' /\
+    D.nv s' = cntv Y /\ D.vc s' = D.vc d /\ D.invalid s' = D.invalid d /\
+    (length (D.invalid d) <= count_occ Z.eq_dec Y 1%Z)%nat /\
+    DP.W NC maxv (Z.of_nat (length Y)) d /\ DF.FI (Z.of_nat (length Y)) d /\ D.nfaces d = Z.of_nat (length Y) /\
+    DP.W NC maxv (Z.of_nat (length Q)) s' /\ DC.FJ (Z.of_nat (length Q)) s' /\
+    eb_iso c2v opp Q (D.c2v s') (D.copp s').
+Proof.
+  intros Complete Sc SO. destruct (sym_loop_simE (length Y) (le_n _) Sc) as (d & E & HS & HW & HF & Hnv & Hev & Hsp & Hst & Hiv).
+  rewrite firstn_all in E, Hnv, Hiv.
+  destruct (start_loop_sim_g c2v opp nf Hlen OK Q Qrng Qnd NC maxv Y HYQ FAN (topsE (length Y)) B (topsE_lt (length Y)) SO HNC (topsE (length Y)) 0%nat d eq_refl)
+    as (s' & E' & A1 & A2 & A3 & HW2 & HJ2); auto.
+  { cbn [firstn]. unfold cnt_true. cbn. rewrite Nat.add_0_r. auto. }
+  { cbn [firstn]. unfold cnt_true. cbn. rewrite Nat.add_0_r. auto. }
+  { cbn [firstn]. unfold cnt_true. cbn. rewrite Nat.add_0_r. apply DC.FI_FJ. auto. }
+  { cbn [firstn]. unfold cnt_true. cbn. rewrite Nat.add_0_r. apply FI_LAB. auto. }
+  pose proof (s_nf _ _ HS) as Hnf.
+  assert (HWn : DP.W NC maxv (D.nfaces d) d) by (rewrite Hnf; exact HW).
+  assert (Hstk : Forall (fun c => 0 <= c < 3 * D.nfaces d) (D.stack d)) by apply (DP.w_stack _ _ _ _ HWn).
+  rewrite <- Hst in E'.
+  destruct (DP.start_loop_W NC maxv _ _ _ _ _ _ HNC HWn Hstk E') as (_ & _ & Env & _).
+  destruct (DO.start_loop_tail NC maxv _ (D.bits_of_list B) (D.stack d) O d HNC HWn) as (_ & T2).
+  { rewrite Hnf. apply DO.FI_NI. exact HF. }
+  { exact Hstk. }
+  destruct (T2 s' E') as (_ & Evc).
+  exists d, s'. split; [exact E|]. split; [exact E'|]. split; [congruence|]. split; [exact Evc|]. split; [exact A3|].
+  split; [exact Hiv|]. split; [exact HW|]. split; [exact HF|]. split; [exact Hnf|]. split; [exact HW2|]. split; [exact HJ2|].
+  apply sim_iso_lab; auto.
 Qed.
 End LoopE.
